@@ -178,7 +178,7 @@ def g_type(rng, depth, cfg=None, top=True):
     w = dict(cfg.get('weights') or {})
     kinds = {
         'scalar': 5, 'none': 0.6, 'any': 0.5, 'seq': 2.2, 'tuple': 1.2, 'dict': 1.3, 'union': 2.0, 'literal': 0.9,
-        'enum': 0.7, 'class': 1.6, 'cond': 1.3, 'tagged': 0.7, 'struct': 0.5 if top else 0.0,
+        'enum': 0.7, 'class': 1.6, 'cond': 1.3, 'tagged': 0.7, 'struct': 0.5 if top else 0.0, 'std': 0.0,
     }
     kinds.update(w)
     if depth <= 0:
@@ -190,6 +190,8 @@ def g_type(rng, depth, cfg=None, top=True):
         return ('scalar', rng.choices(SCALAR_NAMES, [1.2, 3, 2, 0.6, 3, 0.6, 0.3])[0])
     if k in ('none', 'any'):
         return (k,)
+    if k == 'std':
+        return ('std', rng.choice(['decimal', 'fraction', 'datetime', 'date', 'time', 'path', 'pathlike', 'pattern', 'pattern_str', 'pattern_bytes']))
     if k == 'seq':
         return ('seq', rng.choices(['list', 'tuple', 'set', 'frozenset'], [4, 3, 1.2, 0.8])[0], g_type(rng, depth - 1, cfg, False))
     if k == 'tuple':
@@ -320,6 +322,15 @@ def g_valid(rng, term, depth=3):
         if s == 'str':
             return g_str(rng)
         return g_scalar_value(rng, ['bytes', 'bytearray'])
+    if k == 'std':
+        s = term[1]
+        pool = {'decimal': ['1.5', '-2', 'NaN', 3, 2.5, 'abc', '1e5'], 'fraction': ['1/3', '2', '1/0', 5, 0.5, 'x/y'],
+                'datetime': ['2020-01-02T03:04:05', '2020-01-02', 'nope', '2020-13-01T00:00:00'],
+                'date': ['2020-01-02', '2020-02-30', 'x'], 'time': ['03:04:05', '25:00', '03:04'],
+                'path': ['a/b', '', '/x', 'c.txt'], 'pathlike': ['a/b', 'x'],
+                'pattern': ['a+b', '(', 'a{4294967296}', '[a-z]*', ''], 'pattern_str': ['a+b', '(', '\\d+'],
+                'pattern_bytes': [b'a+', b'(', b'x']}[s]
+        return rng.choice(pool)
     if k == 'seq':
         items = [g_valid(rng, term[2], depth - 1) for _ in range(rng.choice([0, 1, 2, 2, 3]))]
         return items if rng.random() < 0.7 else tuple(items)
